@@ -43,13 +43,13 @@ func replaceSubnet[K comparable, M ~map[K]netip.Prefix](
 	subnet netip.Prefix,
 	desiredLength int,
 ) {
+	if subnet.Bits() > desiredLength {
+		// Don't add the subnet if it's not broad enough.
+		return
+	}
+
 	prev, ok := subnets[key]
-	if !ok {
-		if subnet.Bits() > desiredLength {
-			// Don't add the subnet if it's not broad enough.
-			return
-		}
-	} else if dist(prev.Bits(), desiredLength) < dist(subnet.Bits(), desiredLength) {
+	if ok && dist(prev.Bits(), desiredLength) < dist(subnet.Bits(), desiredLength) {
 		// Don't add the subnet if the current subnet's length is closer to the
 		// desired one than that of the new subnet.
 		return
